@@ -77,7 +77,7 @@ func init() {
 	vc.Register(&vc.Check{
 		ID:    "C35",
 		Level: "exploration",
-		Rule:  "cases: every case is one reply of a real Serf node under one complete sequence of rand.Intn outcomes of the relay selection, enumerated in-run (vsched.Feed) and extended only as far as the code consumed it. (reply/*) the node (inert memberlist) knows m other members, each brought by the real handlers (alive notification, leave intent, dead notification) into a class from {alive, leaving, left, failed} x ProtocolMax {4,5}; variants: distinct addresses / all others on one address / the query origin is itself a member; relay factor k in {0,1,2,3,255}; both reply paths (Query.Respond on the delivered query; the acknowledgement sent by the query handler). members=1..3 (m<=2, up to 9 draws): every sequence (quick: 8 classes for m<=1, 3 classes for m=2, plus 5 classes x 3 variants on the first 5 draws; thorough: 8 classes, variants on 3 classes). members=4,5: every outcome of the first D draws (quick D=4, m=3, 5 classes; thorough D=5 for m=3 with 8 classes, D=4 for m=4 with 5 classes), later draws answer 0 = first member in name order, under two namings (node sorts first / in the middle). (select/*) the real kRandomMembers on every ordered list of <=3 (thorough 4) entries from 6 letters incl. duplicate names with different addresses/statuses, with the relay predicate and with none, k in 0..3: every Intn sequence for <=2 (thorough 3) entries, the first 5 draws for the longest lists. Oracle on the transport packets: exactly one direct reply to the origin; relayed copies r<=k, pairwise distinct names, each a known member that is alive with ProtocolMax>=5 and not the node, envelope header = origin, inner bytes = the direct reply; r=0 if the node knows fewer than k+1 members. non-trivial = at least one random draw took place",
+		Rule:  "cases: every case is one reply of a real Serf node under one complete sequence of rand.Intn outcomes of the relay selection, enumerated in-run (vsched.Feed) and extended only as far as the code consumed it. (reply/*) the node (inert memberlist) knows m other members, each brought by the real handlers (alive notification, leave intent, dead notification) into a class from {alive, leaving, left, failed} x ProtocolMax {4,5}; variants: distinct addresses / all others on one address / the query origin is itself a member; relay factor k in {0,1,2,3,255}; both reply paths (Query.Respond on the delivered query; the acknowledgement sent by the query handler). members=1..3 (m<=2, up to 9 draws): every sequence (quick: 8 classes for m<=1, 3 classes for m=2, plus 5 classes x 3 variants on the first 5 draws; thorough: 8 classes, variants on 3 classes). members=4,5: every outcome of the first D draws (quick D=4, m=3, 5 classes; thorough D=5 for m=3 with 8 classes, D=4 for m=4 with 5 classes), later draws answer 0 = first member in name order, under two namings (node sorts first / in the middle). (select/*) the real kRandomMembers on every ordered list of <=3 (thorough 4) entries from 6 letters incl. duplicate names with different addresses/statuses, with the relay predicate and with none, k in 0..3: every Intn sequence for <=2 (thorough 3) entries, the first 5 draws for the longest lists. Oracle on the transport packets: exactly one direct reply to the origin; relayed copies r<=k, pairwise distinct names, each a known member that is alive with ProtocolMax>=5 and not the node, envelope header = origin, inner bytes = the direct reply; r=0 if the node knows fewer than k+1 members. (reply/…/ack-then-member-change-then-respond) a query with the acknowledgement flag and relay factor 1, 2 is delivered to a node that knows 2 (thorough also 3) alive members (every outcome of the first 3 draws of the acknowledgement's relay selection), then each member in turn fails or starts leaving, then the application calls Respond (every outcome of the first 3 draws): same oracle against the member table at the time of the answer. non-trivial = at least one random draw took place",
 		Assumptions: []string{
 			"map iteration in instrumented code is canonical (ascending keys), so Serf.Members() returns members in name order and a sequence of Intn outcomes determines the execution",
 			"the reply is produced while no membership change is in flight (member classes are set up before the query arrives; virtual time does not advance)",
@@ -158,6 +158,7 @@ func c35run(ctx *vc.Ctx) {
 			}
 		}
 	}
+	c35ackThenChange(ctx, &idx)
 	c35select(ctx, &idx)
 }
 
